@@ -1075,7 +1075,6 @@ class C18(PropertyCheck):
         """the MEASURED part: fidelity / leakage of a seeded sample of native gates and short circuits at the default
         parameters (time-budgeted)"""
         budget = 600 if ctx.thorough else 40
-        t0 = time.time()
         # a small fixed part beyond the property's claim: two-qubit devices with different per-qubit control strengths
         nn = 0
         for w in self._nonuniform(small_only=True):
@@ -1091,6 +1090,7 @@ class C18(PropertyCheck):
             nh += 1
             if f:
                 yield w, d
+        t0 = time.time()
         allw = list(self._systematic())
         two = [w for w in allw if len(w["gates"][0][1]) + len(w["gates"][0][2]) == 2 and w["N"] == 2]
         rest = [w for w in allw if w not in two]
